@@ -1,8 +1,39 @@
 import Pcore.Model.LoaderKey
 import Pcore.Proofs.LoaderSeq
-/-! The cached key of a typed name derived with `Child()` / `Parent()` is right when lower-casing keeps the UTF-8 length of
-    every letter involved (helper lemmas for C12_key_derived_lenstable_partial). -/
+/-! `Child()` / `Parent()` BEFORE fix 50062c5 cut the cached key of the derived name out of the receiver's key at byte
+    offsets measured on the unfolded strings.  The pre-fix definitions, and the proof that they were right exactly when
+    lower-casing keeps the UTF-8 length of every letter involved (C12_key_derived_lenstable_before_fix). -/
 namespace Pcore.LoaderSeq
+
+/-- `child(stripCount)` before the fix -/
+def TN.childNBeforeFix (t : TN) (k : Nat) : Derived :=
+  match stripN k t.name with
+  | none => .nil
+  | some name' =>
+    let pfxLen := blen t.auth + blen t.ns + 2
+    let diff := blen t.name - blen name'
+    let parts' := t.parts.map (·.drop k)
+    if t.canonical = [] then .ok { ns := t.ns, auth := t.auth, name := name', canonical := [], parts := parts' }
+    else if pfxLen + diff ≤ t.canonical.length then
+      .ok { ns := t.ns, auth := t.auth, name := name',
+            canonical := t.canonical.take pfxLen ++ t.canonical.drop (pfxLen + diff), parts := parts' }
+    else .fault
+
+def TN.childBeforeFix (t : TN) : Derived := if t.isQualified then t.childNBeforeFix 1 else .nil
+
+/-- `Parent()` before the fix -/
+def TN.parentBeforeFix (t : TN) : Derived :=
+  match lastIndexColons t.name with
+  | none => .nil
+  | some i =>
+    let name' := t.name.take i
+    let lx := blen name'
+    let pfxLen := blen t.auth + blen t.ns + 2
+    let parts' := t.parts.map (·.dropLast)
+    if t.canonical = [] then .ok { ns := t.ns, auth := t.auth, name := name', canonical := [], parts := parts' }
+    else if pfxLen + lx ≤ t.canonical.length then
+      .ok { ns := t.ns, auth := t.auth, name := name', canonical := t.canonical.take (pfxLen + lx), parts := parts' }
+    else .fault
 
 theorem enc_append (a b : List Char) : enc (a ++ b) = enc a ++ enc b := by simp [enc]
 
@@ -68,10 +99,10 @@ theorem drop_prefix_len {α : Type} (x y : List α) (n : Nat) (h : n = x.length)
 
 /-- the sliced key is the fresh key: `child` -/
 theorem childN_key (t : TN) (k : Nat) (t' : TN) (hkey : t.canonical = t.freshKey)
-    (hs : LenStable (t.auth ++ t.ns ++ t.name)) (h : t.childN k = .ok t') : t'.canonical = [] ∨ t'.canonical = t'.freshKey := by
+    (hs : LenStable (t.auth ++ t.ns ++ t.name)) (h : t.childNBeforeFix k = .ok t') : t'.canonical = [] ∨ t'.canonical = t'.freshKey := by
   obtain ⟨ns, auth, name, cn, ps⟩ := t
   simp only at hkey hs
-  unfold TN.childN at h
+  unfold TN.childNBeforeFix at h
   simp only at h
   cases hst : stripN k name with
   | none => rw [hst] at h; cases h
@@ -115,10 +146,10 @@ theorem childN_key (t : TN) (k : Nat) (t' : TN) (hkey : t.canonical = t.freshKey
 
 /-- the sliced key is the fresh key: `Parent()` -/
 theorem parent_key (t t' : TN) (hkey : t.canonical = t.freshKey) (hs : LenStable (t.auth ++ t.ns ++ t.name))
-    (h : t.parent = .ok t') : t'.canonical = [] ∨ t'.canonical = t'.freshKey := by
+    (h : t.parentBeforeFix = .ok t') : t'.canonical = [] ∨ t'.canonical = t'.freshKey := by
   obtain ⟨ns, auth, name, cn, ps⟩ := t
   simp only at hkey hs
-  unfold TN.parent at h
+  unfold TN.parentBeforeFix at h
   simp only at h
   cases hli : lastIndexColons name with
   | none => rw [hli] at h; cases h
@@ -156,10 +187,10 @@ theorem parent_key (t t' : TN) (hkey : t.canonical = t.freshKey) (hs : LenStable
 
 /-- with a right key and length-stable strings the slices are in range: no fault -/
 theorem childN_no_fault (t : TN) (k : Nat) (hkey : t.canonical = [] ∨ t.canonical = t.freshKey)
-    (hs : LenStable (t.auth ++ t.ns ++ t.name)) : t.childN k ≠ .fault := by
+    (hs : LenStable (t.auth ++ t.ns ++ t.name)) : t.childNBeforeFix k ≠ .fault := by
   obtain ⟨ns, auth, name, cn, ps⟩ := t
   simp only at hkey hs
-  unfold TN.childN
+  unfold TN.childNBeforeFix
   simp only
   cases hst : stripN k name with
   | none => simp
@@ -183,10 +214,10 @@ theorem childN_no_fault (t : TN) (k : Nat) (hkey : t.canonical = [] ∨ t.canoni
         simp [hle]
 
 theorem parent_no_fault (t : TN) (hkey : t.canonical = [] ∨ t.canonical = t.freshKey)
-    (hs : LenStable (t.auth ++ t.ns ++ t.name)) : t.parent ≠ .fault := by
+    (hs : LenStable (t.auth ++ t.ns ++ t.name)) : t.parentBeforeFix ≠ .fault := by
   obtain ⟨ns, auth, name, cn, ps⟩ := t
   simp only at hkey hs
-  unfold TN.parent
+  unfold TN.parentBeforeFix
   simp only
   cases hli : lastIndexColons name with
   | none => simp
